@@ -4,7 +4,7 @@
 From Coq Require Extraction.
 From Coq Require Import ExtrOcamlBasic.
 From Coq Require Import List NArith PArith FMapPositive.
-From LogosV Require Import Engine.Model Engine.Cert Engine.Build Engine.ExecOpt Engine.GraphBuild Engine.ByteClass Engine.Prog Engine.Dedup Engine.Run Engine.DfaEquiv Runtime.LexerApi.
+From LogosV Require Import Engine.Model Engine.Cert Engine.Build Engine.ExecOpt Engine.GraphBuild Engine.ByteClass Engine.Prog Engine.Dedup Engine.Rename Engine.Run Engine.DfaEquiv Runtime.LexerApi.
 Extraction Language OCaml.
 Extraction "model.ml" run_ref run_spec run_next_ref run_next_spec run_opt run_opt_trace lex_all attempt_opt act_of fb_of region_starts mk_dfa mk_graph mk_rank mk_pairing mk_pset
-  dfa_ok sim_ok exact_ok wf_graph prompt_ok utf8_ok utf8_strict_ok mk_upairs dead_ok ties reach_ok mk_reach bisim_ok run_history build_checked gsim_ok mk_prog prog_ok run_prog dedup edge_first gfind all_bytes wf_graph closed_graph.
+  dfa_ok sim_ok exact_ok wf_graph prompt_ok prompt_strict_ok utf8_ok utf8_strict_ok mk_upairs dead_ok ties reach_ok mk_reach bisim_ok run_history build_checked gsim_ok gsim_pair rename_graph leaf_map mk_prog prog_ok run_prog dedup edge_first gfind all_bytes wf_graph closed_graph.
